@@ -338,3 +338,171 @@ def h_validator(mask: int) -> bool:
     with NoTracing():
         ok = check_validator(mask)
     return done(ok)
+
+
+# ------------------------------------------------------------------ K20d every option: config file == command line
+import argparse
+import json as _json
+
+FPARSER = _options.get_parser()
+FPARSER._default_config_files = []          # no lookup of ./pyproject.toml etc.: the file content is passed in memory
+ACTIONS = [a for a in FPARSER._actions if a.option_strings and a.dest not in ("help", "version", "config")]
+NACT = len(ACTIONS)
+STR_VALUES = ["abc", "a b", "x=y", "0", "é", "[not a list", "it's", "1.10", "false"]
+INT_VALUES = [0, 1, 7, 12]
+LIST_VALUES = [["PUBLIC:a"], ["PUBLIC:a", "HIDDEN:b.*"], ["b", "a", "b"], ["0"]]
+
+
+def _key(a):
+    return max(a.option_strings, key=len).lstrip("-")
+
+
+def _kind(a):
+    if isinstance(a, argparse._StoreTrueAction):
+        return "true"
+    if isinstance(a, argparse._StoreFalseAction):
+        return "false"
+    if isinstance(a, argparse._CountAction):
+        return "count"
+    if isinstance(a, argparse._AppendAction):
+        return "append"
+    if a.type is int:
+        return "int"
+    return "str"
+
+
+def _values(a):
+    if _kind(a) == "str" and a.choices:
+        return list(a.choices)
+    return {"true": [True, False], "false": [True, False], "count": [0, 1, 2, 3], "append": LIST_VALUES, "int": INT_VALUES, "str": STR_VALUES}[_kind(a)]
+
+
+def _cli(a, v):
+    k, opt = _kind(a), max(a.option_strings, key=len)
+    if k in ("true", "false"):
+        return [opt] if v else []
+    if k == "count":
+        return [opt] * v
+    if k == "append":
+        return ["%s=%s" % (opt, x) for x in v]
+    return ["%s=%s" % (opt, v)]
+
+
+def _file(a, v, fmt):
+    """the setting written in a config file; fmt 0: pyproject.toml, 1: ini bare values, 2: ini quoted / python-list values"""
+    k, key = _kind(a), _key(a)
+    if fmt == 0:
+        if k in ("true", "false"):
+            val = "true" if v else "false"
+        elif k in ("count", "int"):
+            val = str(v)
+        elif k == "append":
+            val = "[" + ", ".join(_json.dumps(x) for x in v) + "]"
+        else:
+            val = _json.dumps(v, ensure_ascii=False)
+        return "[tool.pydoctor]\n%s = %s\n" % (key, val)
+    head = "[pydoctor]\n" if fmt == 1 else "[tool:pydoctor]\n"
+    if k in ("true", "false"):
+        val = "true" if v else "false"
+    elif k in ("count", "int"):
+        val = str(v)
+    elif k == "append":
+        val = ("\n    " + "\n    ".join(v)) if fmt == 1 else "[" + ", ".join(repr(x) for x in v) + "]"
+    else:
+        val = v if fmt == 1 else quote(v, 0)
+    return head + "%s = %s\n" % (key, val)
+
+
+def _bare_toml_literal(v):
+    """the bare text is a TOML literal of a non-string type whose str() is a different text"""
+    import toml
+    try:
+        x = toml.loads("k = " + v)["k"]
+    except Exception:
+        return False
+    return not isinstance(x, str) and str(x) != v
+
+
+def _parse(args, contents=None):
+    with warnings.catch_warnings(record=True) as w:
+        warnings.simplefilter("always")
+        try:
+            ns = FPARSER.parse_args(["src"] + args, config_file_contents=contents)
+        except SystemExit as e:
+            return None, ["SystemExit(%s)" % e.code]
+        except Exception as e:
+            return None, [repr(e)]
+    d = dict(vars(ns))
+    return d, [str(x.message) for x in w]
+
+
+def check_option(ai, vi, fmt, mode):
+    a = ACTIONS[ai]
+    vals = _values(a)
+    v = vals[vi % len(vals)]
+    if _kind(a) in ("true", "false") and not v and mode == 0 and fmt != 0:
+        pass
+    text = _file(a, v, fmt)
+    cli = _cli(a, v)
+    if mode == 0:
+        got, w1 = _parse([], text)
+        want, w2 = _parse(cli)
+        what = "config file value differs from the same value on the command line"
+    elif mode == 1:
+        other = vals[(vi + 1) % len(vals)]
+        cli2 = _cli(a, other)
+        if not cli2:
+            return True           # a flag that is off has no command-line spelling to override with
+        got, w1 = _parse(cli2, text)
+        want, w2 = _parse(cli2)
+        what = "command-line value does not override the config file"
+    else:
+        junk = "no-such-option-%d = 1\n" % vi
+        got, w1 = _parse([], text + junk)
+        want, w2 = _parse([], text)
+        what = "unknown key changes the configuration or is not warned about"
+        if got is not None and len(w1) != len(w2) + 1:
+            note(why="unknown key not warned about exactly once", text=text + junk, warnings=w1)
+            return False
+    if got is None and want is None:
+        return True               # rejected both ways (e.g. not among the option's choices)
+    if got is None or want is None or got != want:
+        if fmt == 1 and _kind(a) == "str" and _bare_toml_literal(v):
+            key = "C20:ini-section-that-is-valid-toml-reads-bare-values-as-toml-literals"
+            if known(key):
+                return True
+        note(why=what, option=_key(a), value=repr(v), file=text, cli=cli, got=None if got is None else {k: repr(x) for k, x in got.items() if want is None or want.get(k) != x},
+             want=None if want is None else {k: repr(x) for k, x in want.items() if got is None or got.get(k) != x}, warnings=w1)
+        return False
+    return True
+
+
+@harness(
+    parts=lambda: list(range(NACT)), timeout=(200, 900), cls="E", tracing="concrete-after-choice", twin="first",
+    code=["pydoctor.options.get_parser (every action of the real parser)", "pydoctor._configparser.TomlConfigParser.parse", "IniConfigParser.parse", "CompositeConfigParser.parse", "ValidatorParser.parse",
+          "configargparse conversion of config items to command-line arguments"],
+    bounds={"quick": "every option of the argument parser (41) x representative values of its kind (flags on/off, counts 0..3, ints 0/1/7/12, 9 strings, 4 lists) x {pyproject.toml, ini with bare values, ini with quoted / python-list values} x {file alone == command line alone, command line overrides file, unknown key warned and ignored}; file content passed in memory",
+            "thorough": "same"},
+    stubs=["the parser's default config file list is emptied on the harness's own parser instance; file content is handed over through configargparse's config_file_contents"],
+    outside="reading the files from disk / cwd lookup, the -c/--config option, conversion of the namespace to Options (converters), values outside the tables",
+)
+def h_file_equals_cli(vi: int, fmt: int, mode: int) -> bool:
+    """
+    pre: 0 <= vi <= 8 and 0 <= fmt <= 2 and 0 <= mode <= 2
+    post: _
+    """
+    ai = PART if PART is not None else 11
+    vi = pick(vi, 0, 8)
+    fmt = pick(fmt, 0, 2)
+    mode = pick(mode, 0, 2)
+    with NoTracing():
+        if vi >= len(_values(ACTIONS[ai])):
+            return True
+        ok = check_option(ai, vi, fmt, mode)
+    return done(ok)
+
+
+def witness_ini_toml(text, dest, want):
+    """replay helper: True when the config text yields `want` for option `dest`"""
+    d, _w = _parse([], text)
+    return d is not None and d[dest] == want
